@@ -8,6 +8,9 @@ CLAIMED = {
                 text='Every listed conversion/integer helper carries a function contract whose postcondition is the mathematical definition from the property (representable <=> has value, value == exact result), enforced by CBMC --dfcc over the full machine domain of every instantiation (64 truncation_check pairs, 20 from_int instantiations, 8 integer types for clamp/diff, 4 unsigned types for log2/next_power_of_2/is_power_of_2, 32/64 bit division helpers). Loops: next_power_of_2<unsigned> by loop invariant + decreases (unbounded), the other widths and log2 by width-bounded unwinding with unwinding assertions (complete). Every nsw/shift/division UB flag of the compiled code is an obligation.',
                 note='Trusted: clang-14 front end, ir2c printer, CBMC and its solvers; contracts on extern "C" shims that only pack/unpack optional<T>; interval_distance not under contract. Machine integers are bit-vectors (no abstraction).'),
 }
+CLAIMED['C10'] = dict(category='proof',
+    text='view(b) = set of enumerators whose bit is set (spec macro over the raw words, independent of the code), wf(b) = padding bits of the last word are clear. Every public operation (get/[]/& e, set/[]=, | e, |,&,^ and assigning forms incl. aliased operands, ~, ==, !=, is_subset_eq, null, initializer lists) carries a contract over the WHOLE view (finite conjunction over all N enumerators) plus wf, enforced by CBMC --dfcc for fully symbolic words; lemmas: init<bitfield>(f) for an uninterpreted f, equal sets hash/compare equal, composed identities through the real operators. Enum sizes 1,3,8,9,17 x word types u8..u64 (12 instantiations quick, all 20 thorough); word loops are compile-time bounded (<= 3 words) and unroll completely.',
+    note='Trusted: clang-14 front end, ir2c, CBMC/solvers. (M) every bitfield reachable through the set-level API is wf by induction over its construction history (steps machine-checked). Not decided: stream output; raw array() access can create non-wf values by design.')
 NA = {}
 props = [json.loads(l) for l in open(os.path.join(V, 'properties.jsonl'))]
 na_reasons = json.load(open(os.path.join(V, 'tools', 'not_applicable.json')))
